@@ -256,9 +256,126 @@ def rule_dim_writers(chk, prog):
         raise AnalysisBroken("dimension writers not found")
 
 
+def rule_rotation(chk, prog):
+    from ..cfg import CFG
+    r = chk.rule("ROTATION-CONSISTENT", "doHOLA's final rotation: every quarter turn of the planar layout passes the layout options "
+                 "(Graph::rotate90cw/acw(&colaOpts): without them no overlap-removing relayout follows, and a quarter turn moves centres "
+                 "without swapping widths and heights); every rotation is followed on all paths by the SepMatrix transform of the same "
+                 "kind and by the matching quarterTurnsCW value (1 / 3 / 2) that rotates the trees' growth directions", floor=3)
+    fn = prog.fn("dialect::doHOLA", sig="HolaOpts")
+    g = CFG(fn)
+    kinds = {"dialect::Graph::rotate90cw": ("dialect::SepTransform::ROTATE90CW", "1", True),
+             "dialect::Graph::rotate90acw": ("dialect::SepTransform::ROTATE90ACW", "3", True),
+             "dialect::Graph::rotate180": ("dialect::SepTransform::ROTATE180", "2", False)}
+    k = 0
+    for c in calls(fn):
+        if c.get("cname") not in kinds:
+            continue
+        k += 1
+        tr, turns, needs_opts = kinds[c["cname"]]
+        r.count()
+        inst = "doHOLA: %s" % c["cname"].split("::")[-1]
+        bad = None
+        if needs_opts:
+            a = call_args(c)
+            if not a or a[0].get("k") == "CXXDefaultArgExpr" or literal_value(a[0]) in ("nullptr", "0"):
+                bad = "quarter turn without layout options: nodes are rotated about the origin but keep their width/height, and no " \
+                      "overlap-removing relayout follows"
+        trs = [t["id"] for t in calls(fn) if t.get("cname") == "dialect::SepMatrix::transform" and tr.split("::")[-1] in norm(call_args(t)[0])]
+        if not bad and (not trs or g.must_follow(c["id"], trs) is not None):
+            bad = "the core's separation constraints are not transformed by %s after the rotation" % tr.split("::")[-1]
+        st = [node["id"] for lhs, node, op in writes(fn) if norm(lhs) == "quarterTurnsCW" and literal_value(node["ch"][1]) == turns]
+        if not bad and (not st or g.must_follow(c["id"], st) is not None):
+            bad = "quarterTurnsCW is not set to %s after the rotation (tree growth directions would not follow)" % turns
+        (r.bad if bad else r.ok)(inst, fn.loc(c), bad or "")
+    if k < 3:
+        raise AnalysisBroken("doHOLA: expected the three rotation calls, found %d" % k)
+
+
+def rule_tree_flip(chk, prog):
+    from ..microai.interp import Interp, Obj, Vec, MapVal, Oracle, Unsupported, AssertFail, default_obj
+    from ..microai.poly import Poly, to_poly
+    r = chk.rule("TREE-TRANSFORMS", "Tree::flip / Tree::translate / Tree::rotate*, interpreted on a symbolic tree box: flip maps the bounds "
+                 "interval [lb, ub] to [-ub, -lb] for every tree (symmetric or not), i.e. bounds always describe the transformed nodes", floor=1)
+    fn = prog.fn("dialect::Tree::flip")
+    for sym in (False, True):
+      for gd in (0, 1):             # a vertical and a horizontal growth direction
+        lb, ub = Poly.var("lb"), Poly.var("ub")
+        mk = lambda i: default_obj(prog, "dialect::Node", {"m_cx": Poly.var("x%d" % i), "m_cy": Poly.var("y%d" % i), "m_ID": i})
+        nodes = MapVal({1: mk(1), 2: mk(2)})
+        ranks = Vec([Vec([Poly.var("l0"), Poly.var("u0")]), Vec([Poly.var("l1"), Poly.var("u1")])])
+        gdv = {0: "dialect::CardinalDir::NORTH", 1: "dialect::CardinalDir::EAST"}[gd]
+        t = default_obj(prog, "dialect::Tree", {"m_lb": lb, "m_ub": ub, "m_isSymmetric": sym, "m_growthDir": None,
+                                                "m_nodes": nodes, "m_depth": 2, "m_boundsByRank": ranks})
+        t.f["m_growthDir"] = _enum(prog, gdv)
+        it = Interp(prog, Oracle([]))
+        try:
+            it.call(fn, t, None, None, arg_values=[])
+        except (Unsupported, AssertFail) as e:
+            raise AnalysisBroken("Tree::flip outside the interpreter subset: %s" % e)
+        r.count()
+        neg = lambda v: to_poly(Poly.var(v)) * -1
+        bad = None
+        if (to_poly(t.f["m_lb"]), to_poly(t.f["m_ub"])) != (neg("ub"), neg("lb")):
+            bad = "bounds after flip are [%s, %s], expected [-ub, -lb]: the tree box no longer covers the flipped nodes when " \
+                  "mirror-image nodes have different sizes" % (to_poly(t.f["m_lb"]), to_poly(t.f["m_ub"]))
+        for k in (0, 1):
+            got = tuple(to_poly(x) for x in t.f["m_boundsByRank"].items[k].items)
+            if got != (neg("u%d" % k), neg("l%d" % k)):
+                bad = bad or "per-rank bounds of rank %d after flip are %s, expected [-u, -l]" % (k, got)
+        for i in (1, 2):
+            n_ = nodes.d[i]
+            got = (to_poly(n_.f["m_cx"]), to_poly(n_.f["m_cy"]))
+            want = (neg("x%d" % i), to_poly(Poly.var("y%d" % i))) if gd == 0 else (to_poly(Poly.var("x%d" % i)), neg("y%d" % i))
+            if got != want:
+                bad = bad or "node %d is moved to %s, expected %s" % (i, got, want)
+        inst = "Tree::flip (symmetric=%s, growth %s)" % (sym, gdv.split("::")[-1])
+        (r.bad if bad else r.ok)(inst, fn.where(), bad or "")
+        if sym:
+            continue
+        # translate by a symbolic vector: everything shifts by the component across the growth direction
+        ft = prog.fn("dialect::Tree::translate")
+        nodes = MapVal({1: mk(1), 2: mk(2)})
+        ranks = Vec([Vec([Poly.var("l0"), Poly.var("u0")]), Vec([Poly.var("l1"), Poly.var("u1")])])
+        t = default_obj(prog, "dialect::Tree", {"m_lb": lb, "m_ub": ub, "m_isSymmetric": False, "m_growthDir": _enum(prog, gdv),
+                                                "m_nodes": nodes, "m_depth": 2, "m_boundsByRank": ranks})
+        vec = default_obj(prog, "Avoid::Point", {"x": Poly.var("dx"), "y": Poly.var("dy")})
+        it = Interp(prog, Oracle([]))
+        try:
+            it.call(ft, t, None, None, arg_values=[vec])
+        except (Unsupported, AssertFail) as e:
+            raise AnalysisBroken("Tree::translate outside the interpreter subset: %s" % e)
+        r.count()
+        d = to_poly(Poly.var("dx" if gd == 0 else "dy"))
+        P_ = lambda v: to_poly(Poly.var(v))
+        bad = None
+        if (to_poly(t.f["m_lb"]), to_poly(t.f["m_ub"])) != (P_("lb") + d, P_("ub") + d):
+            bad = "bounds after translate are [%s, %s], expected [lb + d, ub + d] with d the component across the growth direction" % (
+                to_poly(t.f["m_lb"]), to_poly(t.f["m_ub"]))
+        for k in (0, 1):
+            got = tuple(to_poly(x) for x in t.f["m_boundsByRank"].items[k].items)
+            if got != (P_("l%d" % k) + d, P_("u%d" % k) + d):
+                bad = bad or "per-rank bounds of rank %d after translate are %s" % (k, got)
+        for i in (1, 2):
+            got = (to_poly(nodes.d[i].f["m_cx"]), to_poly(nodes.d[i].f["m_cy"]))
+            if got != (P_("x%d" % i) + P_("dx"), P_("y%d" % i) + P_("dy")):
+                bad = bad or "node %d is moved to %s" % (i, got)
+        (r.bad if bad else r.ok)("Tree::translate (growth %s)" % gdv.split("::")[-1], ft.where(), bad or "")
+
+
+def _enum(prog, q):
+    for e in prog.enums.values():
+        for c in e.get("enumerators", []):
+            if c.get("q") == q:
+                return int(c["v"])
+    raise AnalysisBroken("enumerator %s not found" % q)
+
+
 def run(chk):
     prog = chk.load()
     rule_padding(chk, prog)
     rule_primitives(chk, prog)
     rule_orthogonal(chk, prog)
     rule_dim_writers(chk, prog)
+    rule_rotation(chk, prog)
+    rule_tree_flip(chk, prog)
